@@ -719,7 +719,7 @@ func checkPackage(compilation *compilation, pkg *ast.Package, path string, impor
 		TypeInfos:        tc.compilation.typeInfos,
 	}
 
-	err = compilation.finalizeUsingStatements(tc)
+	err = compilation.finalizeUsingStatementsOf(tc, path)
 	if err != nil {
 		return err
 	}
